@@ -1,2 +1,124 @@
-/- stub: line-protocol driver for C19 (to be written) -/
-def main : IO Unit := pure ()
+/- Line-protocol driver for the expression heap model (property C19).  Same operations, same canonical output as
+   harness/c19.cpp:   T <k> <tree>   registers tree k;   clone_deeper k | clone k | clone_sym k a b | subst k s j |
+   equal k j | sizes k   are answered from Model/Heap.lean.
+   Trees: (id KIND val sym ty child...), () = empty.  In results, nodes allocated by the operation are renamed n0, n1, …
+   in order of first occurrence; nodes of registered trees keep their number (sharing is visible). -/
+import UtapModel.Drv.FeatureSexp
+import UtapModel.Model.Heap
+open UtapModel UtapModel.Heap UtapModel.Sexp
+
+def hexVal (s : String) : Nat :=
+  s.toList.foldl (fun acc c =>
+    let d := if c.isDigit then c.toNat - '0'.toNat else if 'a' ≤ c && c ≤ 'f' then c.toNat - 'a'.toNat + 10
+             else if 'A' ≤ c && c ≤ 'F' then c.toNat - 'A'.toNat + 10 else 0
+    acc * 16 + d) 0
+
+def hexStr16 (n : Nat) : String :=
+  let digs := (List.range 16).map (fun i => (n / 16 ^ (15 - i)) % 16)
+  String.ofList (digs.map (fun d => if d < 10 then Char.ofNat ('0'.toNat + d) else Char.ofNat ('a'.toNat + d - 10)))
+
+def decVal (s : String) : Option Val :=
+  let body := (s.drop 1).toString
+  match s.toList.head? with
+  | some 'i' => body.toInt?.map Val.int
+  | some 's' => body.toNat?.map Val.sync
+  | some 'd' => some (Val.dbl (hexVal body))
+  | some 't' => body.toNat?.map Val.str
+  | _ => none
+
+def decTy (s : String) : Ty :=
+  if s == "B" then .bool else if s == "I" then .int else if s == "D" then .double else if s == "S" then .string else .other
+
+partial def decTree : Sx → Option HExpr
+  | .list [] => some .null
+  | .list (.atom i :: .atom k :: .atom v :: .atom s :: .atom t :: sub) => do
+    let id ← i.toNat?
+    let kind ← Kind.ofName? k
+    let val ← decVal v
+    let sym ← (if s == "-" then some none else ((s.drop 1).toString.toNat?).map some)
+    let subs ← sub.mapM decTree
+    pure (.node id { kind := kind, val := val, sym := sym, ty := decTy t } subs)
+  | _ => none
+
+def showVal : Val → String
+  | .int v => s!"i{v}"
+  | .sync v => s!"s{v}"
+  | .dbl b => "d" ++ hexStr16 b
+  | .str i => s!"t{i}"
+
+def showTy : Ty → String
+  | .bool => "B" | .int => "I" | .double => "D" | .string => "S" | .other => "-"
+
+/-- canonical output: ids below `next` are registered nodes; others are renamed in order of first occurrence -/
+partial def showTree (next : Nat) (e : HExpr) (fresh : List Nat) : String × List Nat :=
+  match e with
+  | .null => ("()", fresh)
+  | .node i a sub =>
+    let (name, fresh) :=
+      if i < next then (toString i, fresh)
+      else match fresh.idxOf? i with
+        | some k => (s!"n{k}", fresh)
+        | none => (s!"n{fresh.length}", fresh ++ [i])
+    let (subs, fresh) := sub.foldl (fun (acc : List String × List Nat) c =>
+      let (s, f) := showTree next c acc.2
+      (acc.1 ++ [s], f)) ([], fresh)
+    let symS := match a.sym with | some s => s!"#{s}" | none => "-"
+    let head := s!"({name} {a.kind.name} {showVal a.val} {symS} {showTy a.ty}"
+    (subs.foldl (fun acc s => acc ++ " " ++ s) head ++ ")", fresh)
+
+structure St where
+  trees : List (Nat × HExpr) := []
+  next : Nat := 0
+
+def St.get (st : St) (k : Nat) : Option HExpr := (st.trees.find? (·.1 == k)).map (·.2)
+
+def maxId (e : HExpr) : Nat := (ids e).foldl max 0
+
+def step (st : St) (line : String) : St × String :=
+  let l := line.trimAscii.toString
+  let ws := (l.splitOn " ").filter (· ≠ "")
+  match ws with
+  | "T" :: k :: _ =>
+    let rest := ((l.drop 2).toString.trimAscii.toString.dropWhile (· != ' ')).toString
+    match k.toNat?, parse rest with
+    | some kk, some [sx] =>
+      match decTree sx with
+      | some t => ({ trees := (kk, t) :: st.trees, next := max st.next (maxId t + 1) }, "ok")
+      | none => (st, "bad-tree")
+    | _, _ => (st, "bad-sexp")
+  | "RESET" :: _ => ({}, "ok")
+  | [op, k] =>
+    match k.toNat?.bind st.get with
+    | none => (st, "no-tree")
+    | some e =>
+      if op == "clone_deeper" then (st, (showTree st.next (cloneDeeper st.next e).1 []).1)
+      else if op == "clone" then (st, (showTree st.next (clone st.next e).1 []).1)
+      else if op == "sizes" then
+        (st, ((subtrees e).filter (fun x => x.id?.isSome)).foldl (fun acc n => acc ++ " " ++ toString (getSize n)) "sizes")
+      else (st, "bad-op")
+  | [op, k, j] =>
+    match k.toNat?.bind st.get, j.toNat?.bind st.get with
+    | some a, some b => if op == "equal" then (st, if equal a b then "true" else "false") else (st, "bad-op")
+    | _, _ => (st, "no-tree")
+  | [op, k, x, y] =>
+    match k.toNat?.bind st.get, x.toNat?, y.toNat? with
+    | some e, some a, some b =>
+      if op == "clone_sym" then (st, (showTree st.next (cloneDeeperSym (some a) (some b) st.next e).1 []).1)
+      else if op == "subst" then
+        match st.get b with
+        | some r => (st, (showTree st.next (subst a r st.next e).1 []).1)
+        | none => (st, "no-tree")
+      else (st, "bad-op")
+    | _, _, _ => (st, "no-tree")
+  | _ => (st, "bad-op")
+
+partial def loop (st : St) (h : IO.FS.Stream) (out : IO.FS.Stream) : IO Unit := do
+  let line ← h.getLine
+  if line.isEmpty then return ()
+  let (st', o) := step st line
+  out.putStrLn o
+  loop st' h out
+
+def main : IO Unit := do
+  let out ← IO.getStdout
+  loop {} (← IO.getStdin) out
